@@ -11,7 +11,13 @@ package obikmer
 //   index  : every sequence over {a,c,g,t} up to a length bound for small k, and every window of fixed
 //            80-mers for EVERY k = 2..64 (even dense, odd sparse), with every key width that holds 2k bits.
 //   4-mers : Count4Mer on every sequence up to a length bound (fresh and recycled buffers), Common4Mer on
-//            all pairs of a smaller bound.
+//            all pairs of a smaller bound; every ordered pair of sequences (empty one included) through one
+//            recycled buffer / table in the three ways the commands pass them.
+//   histories: Push, query (weights, HasCycle, HaviestPath, LongestConsensus), Push again, query again ...
+//            on one graph object, every ordered pair of short sequences; the k-mer index called with one
+//            recycled result buffer across sequences.
+//   every k : the graph for EVERY k = 2..31 on windows of the 80-mers with their single-edit variants (thin
+//            grid), and every multiset of three short sequences (three-way branches).
 // Oracles are written on strings / plain integers in this file (see c19graphCheck, c19indexCheck).
 
 import (
@@ -33,7 +39,7 @@ import (
 )
 
 type c19case struct {
-	Kind   string   `json:"kind"` // graph | index | count4 | common4
+	Kind   string   `json:"kind"` // graph | graphhist | index | count4 | count4hist | common4
 	K      int      `json:"k,omitempty"`
 	Seqs   []string `json:"seqs"`
 	Counts []int    `json:"counts,omitempty"`
@@ -196,6 +202,30 @@ func c19models(seqs []string, counts []int, k int, minLen int) (a, b c19wmap) {
 		}
 	}
 	return
+}
+
+// c19modelRewalk is NOT a reading of the statement: it predicts the weights produced by the known defect
+// of Push listed in known_findings.txt (the rest of the sequence is walked again once per expansion of an
+// ambiguity code, so a window is counted once per expansion of everything that PRECEDES it). It only
+// serves to keep the key of that finding fine: weights that fit neither reading of the statement and do
+// not follow this pattern either are a different defect and get a different key.
+func c19modelRewalk(seqs []string, counts []int, k int) c19wmap {
+	m := c19wmap{}
+	for i, s := range seqs {
+		if len(s) < k {
+			continue
+		}
+		mult := 1
+		for p := 0; p+k <= len(s); p++ {
+			if p > 0 {
+				mult *= len(c19iupac[s[p-1]])
+			}
+			for _, e := range c19expand(s[p : p+k]) {
+				m[c19enc(e)] += counts[i] * mult
+			}
+		}
+	}
+	return m
 }
 
 type c19wS struct {
@@ -382,10 +412,6 @@ func c19distinctKmers(s string, k int) bool {
 func (x *c19ctx) graphCheck(c c19case) {
 	r := x.r
 	k := c.K
-	r.Eval(1)
-	viol := func(key, format string, a ...any) {
-		x.violate(key, c, func() string { return fmt.Sprintf("k=%d seqs=%v counts=%v: ", k, c.Seqs, c.Counts) }, format, a...)
-	}
 	g := MakeDeBruijnGraph(k)
 	if p := c19try(func() {
 		for i, s := range c.Seqs {
@@ -393,8 +419,49 @@ func (x *c19ctx) graphCheck(c c19case) {
 			r.Trans(1)
 		}
 	}); p != "" {
-		viol("DeBruijnGraph.Push/panic", "%s", p)
+		x.violate("DeBruijnGraph.Push/panic", c, func() string { return fmt.Sprintf("k=%d seqs=%v counts=%v: ", k, c.Seqs, c.Counts) }, "%s", p)
 		return
+	}
+	x.graphJudge(g, c, c, "")
+}
+
+// graphHistCheck: one graph object lives through Push, queries, Push, queries ...: after every Push the
+// graph is judged as if it had just been built from the sequences pushed so far (the queries must leave
+// nothing behind: no cached heads, no stale visit marks, no pruned node), then everything is asked a second time.
+func (x *c19ctx) graphHistCheck(c c19case) {
+	r := x.r
+	k := c.K
+	g := MakeDeBruijnGraph(k)
+	for i := range c.Seqs {
+		if p := c19try(func() { g.Push(x.seq(c.Seqs[i], c.Counts[i])) }); p != "" {
+			x.violate("DeBruijnGraph.Push/panic:history", c, func() string { return fmt.Sprintf("k=%d pushes=%v counts=%v step %d: ", k, c.Seqs, c.Counts, i) }, "%s", p)
+			return
+		}
+		r.Trans(1)
+		sub := c19case{Kind: "graph", K: k, Seqs: c.Seqs[:i+1], Counts: c.Counts[:i+1]}
+		suffix := ""
+		if i > 0 {
+			suffix = ":after-queries-and-another-push"
+		}
+		if !x.graphJudge(g, sub, c, suffix) {
+			return
+		}
+	}
+	// the same questions again on the final graph
+	x.graphJudge(g, c19case{Kind: "graph", K: k, Seqs: c.Seqs, Counts: c.Counts}, c, ":asked-twice")
+	r.Count("graph_histories", 1)
+}
+
+// graphJudge compares graph g with the model of the sequences of c. replay is the case stored with a
+// violation, suffix is appended to the keys (call histories). It returns false when a violation was found.
+func (x *c19ctx) graphJudge(g *DeBruijnGraph, c c19case, replay c19case, suffix string) bool {
+	r := x.r
+	k := c.K
+	r.Eval(1)
+	clean := true
+	viol := func(key, format string, a ...any) {
+		clean = false
+		x.violate(key+suffix, replay, func() string { return fmt.Sprintf("k=%d seqs=%v counts=%v: ", k, c.Seqs, c.Counts) }, format, a...)
 	}
 
 	// ---- 1. weights
@@ -424,9 +491,14 @@ func (x *c19ctx) graphCheck(c c19case) {
 		case pure:
 			viol("DeBruijnGraph.Push/wrong-weight",
 				"graph {%s} want {%s}", c19wString(actual, k), c19wString(ma, k))
-		default:
+		case c19wEqual(c19modelRewalk(c.Seqs, c.Counts, k), g):
+			// the known finding, and only it: a window counted once per expansion of what precedes it
 			viol("DeBruijnGraph.Push/ambiguity-weights-fit-no-reading",
 				"graph {%s}; window-compatible reading {%s}; expansion reading {%s}", c19wString(actual, k), c19wString(ma, k), c19wString(mb, k))
+		default:
+			viol("DeBruijnGraph.Push/wrong-weight:ambiguous-sequence(not the tail-re-walk pattern)",
+				"graph {%s}; window-compatible reading {%s}; expansion reading {%s}; weights of the known re-walk defect {%s}",
+				c19wString(actual, k), c19wString(ma, k), c19wString(mb, k), c19wString(c19modelRewalk(c.Seqs, c.Counts, k), k))
 		}
 	}
 
@@ -446,7 +518,7 @@ func (x *c19ctx) graphCheck(c c19case) {
 	var hc bool
 	if p := c19try(func() { hc = g.HasCycle() }); p != "" {
 		viol("DeBruijnGraph.HasCycle/panic", "%s", p)
-		return
+		return false
 	}
 	if hc != d.cyclic {
 		viol("DeBruijnGraph.HasCycle/wrong-answer", "HasCycle()=%v, graph {%s} cyclic=%v", hc, c19wString(actual, k), d.cyclic)
@@ -522,6 +594,7 @@ func (x *c19ctx) graphCheck(c c19case) {
 			}
 		}
 	}
+	return clean
 }
 
 type c19pS struct {
@@ -544,17 +617,37 @@ func c19pathStringNow(p []uint64, k int) string {
 // k-mer index
 
 type c19km interface {
-	run(seq *obiseq.BioSequence) (vals [][4]uint64, strs []string, panicked string)
+	// run lists the canonical k-mers of seq; recycled: through a result buffer that served before
+	// (otherwise a nil buffer)
+	run(seq *obiseq.BioSequence, recycled bool) (vals [][4]uint64, strs []string, panicked string)
 }
 
 type c19kmT[T obifp.FPUint[T]] struct {
 	km    *KmerMap[T]
 	limbs int
+	buf   []T
 }
 
-func (w *c19kmT[T]) run(seq *obiseq.BioSequence) (vals [][4]uint64, strs []string, panicked string) {
+func (w *c19kmT[T]) run(seq *obiseq.BioSequence, recycled bool) (vals [][4]uint64, strs []string, panicked string) {
 	panicked = c19try(func() {
-		ks := w.km.NormalizedKmerSlice(seq, nil)
+		var ks []T
+		if recycled {
+			// a buffer that served before: full of leftovers, longer than the coming result (even sequence
+			// lengths) or too small for it (odd ones). Same state for every case, so that a case replays alone.
+			if cap(w.buf) < 128 {
+				w.buf = make([]T, 128)
+			}
+			b := w.buf[:128]
+			if seq.Len()%2 == 1 {
+				b = make([]T, 2)
+			}
+			for i := range b {
+				b[i] = obifp.From64[T](0x5a5a5a5a5a5a5a5a)
+			}
+			ks = w.km.NormalizedKmerSlice(seq, &b)
+		} else {
+			ks = w.km.NormalizedKmerSlice(seq, nil)
+		}
 		for _, kmer := range ks {
 			var l [4]uint64
 			x := kmer
@@ -573,11 +666,11 @@ func c19newKm(width, k int, sparse bool) (km c19km, panicked string) {
 	panicked = c19try(func() {
 		switch width {
 		case 64:
-			km = &c19kmT[obifp.Uint64]{NewKmerMap[obifp.Uint64](obiseq.BioSequenceSlice{}, uint(k), sparse, -1), 1}
+			km = &c19kmT[obifp.Uint64]{km: NewKmerMap[obifp.Uint64](obiseq.BioSequenceSlice{}, uint(k), sparse, -1), limbs: 1}
 		case 128:
-			km = &c19kmT[obifp.Uint128]{NewKmerMap[obifp.Uint128](obiseq.BioSequenceSlice{}, uint(k), sparse, -1), 2}
+			km = &c19kmT[obifp.Uint128]{km: NewKmerMap[obifp.Uint128](obiseq.BioSequenceSlice{}, uint(k), sparse, -1), limbs: 2}
 		case 256:
-			km = &c19kmT[obifp.Uint256]{NewKmerMap[obifp.Uint256](obiseq.BioSequenceSlice{}, uint(k), sparse, -1), 4}
+			km = &c19kmT[obifp.Uint256]{km: NewKmerMap[obifp.Uint256](obiseq.BioSequenceSlice{}, uint(k), sparse, -1), limbs: 4}
 		default:
 			panic("bad width")
 		}
@@ -676,14 +769,16 @@ func (x *c19ctx) indexCheck(c c19case) {
 		x.violate(key, c, func() string { return fmt.Sprintf("Uint%d k=%d %s seq=%q: ", c.Width, k, mode, s) }, format, a...)
 	}
 	rs := c19rc(s)
-	fv, fs, p := km.run(obiseq.NewBioSequence("f", []byte(s), ""))
+	fv, fs, p := km.run(obiseq.NewBioSequence("f", []byte(s), ""), false)
 	if p != "" {
 		viol("KmerMap.NormalizedKmerSlice/panic", "%s", p)
 		return
 	}
-	_, bs, p := km.run(obiseq.NewBioSequence("r", []byte(rs), ""))
+	// the reverse complement goes through a result buffer that served before (leftovers, too long or too small)
+	rseq := obiseq.NewBioSequence("r", []byte(rs), "")
+	_, bs, p := km.run(rseq, true)
 	if p != "" {
-		viol("KmerMap.NormalizedKmerSlice/panic", "%s", "on the reverse complement: "+p)
+		viol("KmerMap.NormalizedKmerSlice/panic", "%s", "on the reverse complement (recycled buffer): "+p)
 		return
 	}
 	r.Trans(int64(len(fs) + len(bs)))
@@ -691,6 +786,11 @@ func (x *c19ctx) indexCheck(c c19case) {
 	// (a) strand invariance of the multiset
 	a, b := c19sortedCopy(fs), c19sortedCopy(bs)
 	if strings.Join(a, ",") != strings.Join(b, ",") {
+		if _, bs2, p2 := km.run(rseq, false); p2 == "" && strings.Join(bs2, ",") != strings.Join(bs, ",") {
+			viol("KmerMap.NormalizedKmerSlice/recycled-buffer-changes-the-result:"+mode,
+				"reverse complement %q: %v with the buffer of the previous calls, %v with a nil buffer", rs, c19head(bs), c19head(bs2))
+			return
+		}
 		nd := 0
 		cnt := map[string]int{}
 		for _, v := range a {
@@ -856,6 +956,56 @@ func (x *c19ctx) count4Check(c c19case, reuse *c19fm) {
 	r.Trans(1)
 }
 
+// count4HistCheck: two sequences in a row through the same buffer and table, in the three ways the
+// commands pass them (buffer+table; buffer only, as obitag / obirefidx do; table only). The table of the
+// second call must count the second sequence only, whatever the first one left behind.
+func (x *c19ctx) count4HistCheck(c c19case, objs [2]*obiseq.BioSequence, want *[256]int) {
+	r := x.r
+	r.Eval(1)
+	if objs[0] == nil {
+		objs[0] = obiseq.NewBioSequence("p", []byte(c.Seqs[0]), "")
+		objs[1] = obiseq.NewBioSequence("s", []byte(c.Seqs[1]), "")
+		w := c19naive4(c.Seqs[1])
+		want = &w
+	}
+	for _, mode := range []string{"buffer+table", "buffer", "table"} {
+		var buf []byte
+		var tab Table4mer
+		pb, pt := &buf, &tab
+		if mode == "buffer" {
+			pt = nil
+		}
+		if mode == "table" {
+			pb = nil
+		}
+		var got *Table4mer
+		if p := c19try(func() {
+			Count4Mer(objs[0], pb, pt)
+			got = Count4Mer(objs[1], pb, pt)
+		}); p != "" {
+			r.Violate("Count4Mer/panic:history:"+mode, fmt.Sprintf("%q then %q: %s", c.Seqs[0], c.Seqs[1], p), c)
+			continue
+		}
+		r.Trans(2)
+		for i := 0; i < 256; i++ {
+			if int(got[i]) != want[i] {
+				cls := "same-length"
+				if len(c.Seqs[1]) < len(c.Seqs[0]) {
+					cls = "shorter-after-longer"
+					if len(c.Seqs[1]) < 4 {
+						cls = "no-4-mer-after-some"
+					}
+				} else if len(c.Seqs[1]) > len(c.Seqs[0]) {
+					cls = "longer-after-shorter"
+				}
+				r.Violate("Count4Mer/wrong-count:history:"+mode+":"+cls,
+					fmt.Sprintf("%q then %q: 4-mer %s counted %d, occurs %d in the second", c.Seqs[0], c.Seqs[1], c19dec(uint64(i), 4), got[i], want[i]), c)
+				break
+			}
+		}
+	}
+}
+
 func (x *c19ctx) common4Check(c c19case) {
 	r := x.r
 	r.Eval(1)
@@ -908,6 +1058,10 @@ func (x *c19ctx) dispatch(c c19case) {
 	switch c.Kind {
 	case "graph":
 		x.graphCheck(c)
+	case "graphhist":
+		x.graphHistCheck(c)
+	case "count4hist":
+		x.count4HistCheck(c, [2]*obiseq.BioSequence{}, nil)
 	case "index":
 		x.indexCheck(c)
 	case "count4":
@@ -948,8 +1102,10 @@ func TestVerifC19(t *testing.T) {
 	ambMax := 5
 	idxSmallMax := 8
 	c4Max, common4Max := 8, 5
+	c4HistMax, graphHistMax, tripleMax := 5, 4, 3
 	winStep := 4 // graph windows of the 80-mers: start and length on a grid of this step (quick)
 	if thorough {
+		c4HistMax, graphHistMax, tripleMax = 6, 5, 4
 		singleMax, pairMax = 10, 6
 		ambMax = 6
 		idxSmallMax = 10
@@ -966,6 +1122,10 @@ func TestVerifC19(t *testing.T) {
 	r.Bound("index_k", "2..64 (even dense, odd sparse), widths with 2k < width")
 	r.Bound("index_windows", "every window (start, length >= k) of 3 fixed 80-mers, and its reverse complement")
 	r.Bound("index_small_seq_maxlen", idxSmallMax)
+	r.Bound("count4_history_pair_maxlen", c4HistMax)
+	r.Bound("graph_history", fmt.Sprintf("push a, push b, push a again with every query after each push; all ordered pairs of length 2..%d, k=2..3, counts (1,1,1) (1,2,3)", graphHistMax))
+	r.Bound("graph_triples", fmt.Sprintf("all multisets of 3 sequences of length <= %d, k=2..3, counts (1,1,1) (1,2,3) (3,1,2); three-way forks / merges of length %d at k=3", tripleMax, tripleMax+1))
+	r.Bound("graph_every_k", "k=2..31 on windows (lengths k, k+1, k+2, 2k-1, 2k, 2k+1, 3k, to the end) of the 80-mers with every single-edit variant")
 	r.Bound("count4_maxlen", c4Max)
 	r.Bound("common4_pair_maxlen", common4Max)
 
@@ -1010,6 +1170,8 @@ func TestVerifC19(t *testing.T) {
 				"E": {"index_forward_smaller_after_first_window"},
 				"G": {"count4_sequences_with_4mers"},
 				"H": {"common4_pairs_sharing"},
+				"J": {"graph_histories"},
+				"K": {"graph_every_k_windows"},
 			}[name] {
 				r.RequireNonVacuous(c)
 			}
@@ -1224,6 +1386,121 @@ func TestVerifC19(t *testing.T) {
 			}
 		})
 	}
+	// ---- G2. 4-mer tables, call histories: every ordered pair of sequences of length 0..histMax through one
+	// recycled buffer / table
+	part("G2", func() {
+		hs := verifkit.AllStrings("acgt", 0, c4HistMax)
+		objs := make([]*obiseq.BioSequence, len(hs))
+		naive := make([][256]int, len(hs))
+		for i, s := range hs {
+			objs[i] = obiseq.NewBioSequence("s", []byte(s), "")
+			naive[i] = c19naive4(s)
+		}
+		for i := 0; i < len(hs) && !expired(); i++ {
+			if !mine() {
+				continue
+			}
+			for j := 0; j < len(hs); j++ {
+				x.count4HistCheck(c19case{Kind: "count4hist", Seqs: []string{hs[i], hs[j]}}, [2]*obiseq.BioSequence{objs[i], objs[j]}, &naive[j])
+			}
+		}
+	})
+	// ---- J. graph, call histories: Push, queries, Push, queries, Push (the first sequence again), queries,
+	// and all queries twice — every ordered pair of sequences
+	part("J", func() {
+		hs := verifkit.AllStrings("acgt", 2, graphHistMax)
+		for i := 0; i < len(hs) && !expired(); i++ {
+			if !mine() {
+				continue
+			}
+			for j := 0; j < len(hs); j++ {
+				for k := 2; k <= 3; k++ {
+					if len(hs[i]) < k && len(hs[j]) < k {
+						continue
+					}
+					for _, cc := range [][]int{{1, 1, 1}, {1, 2, 3}} {
+						x.graphHistCheck(c19case{Kind: "graphhist", K: k, Seqs: []string{hs[i], hs[j], hs[i]}, Counts: cc})
+					}
+				}
+			}
+		}
+	})
+	// ---- T. graph, every multiset of three sequences (three-way branches, three weights)
+	part("T", func() {
+		ts := verifkit.AllStrings("acgt", 1, tripleMax)
+		ex := verifkit.AllStrings("acgt", tripleMax+1, tripleMax+1)
+		for i := 0; i < len(ts) && !expired(); i++ {
+			for j := i; j < len(ts); j++ {
+				if !mine() {
+					continue
+				}
+				for l := j; l < len(ts); l++ {
+					for k := 2; k <= 3; k++ {
+						for _, cc := range [][]int{{1, 1, 1}, {1, 2, 3}, {3, 1, 2}} {
+							x.graphCheck(c19case{Kind: "graph", K: k, Seqs: []string{ts[i], ts[j], ts[l]}, Counts: cc})
+						}
+					}
+				}
+			}
+		}
+		// three sequences of the next length that share their first k-1 = 2 bases or their last 2 bases
+		// (what makes a three-way fork or a three-way merge at k=3), one count vector
+		for i := 0; i < len(ex) && !expired(); i++ {
+			if !mine() {
+				continue
+			}
+			for j := i + 1; j < len(ex); j++ {
+				for l := j + 1; l < len(ex); l++ {
+					a, b, c := ex[i], ex[j], ex[l]
+					n := len(a)
+					fork := a[:2] == b[:2] && b[:2] == c[:2]
+					merge := a[n-2:] == b[n-2:] && b[n-2:] == c[n-2:]
+					if !fork && !merge {
+						continue
+					}
+					x.graphCheck(c19case{Kind: "graph", K: 3, Seqs: []string{a, b, c}, Counts: []int{1, 2, 3}})
+				}
+			}
+		}
+	})
+	// ---- K. graph, EVERY k = 2..31: windows of the 80-mers on a thin grid, alone and with each single-edit variant
+	part("K", func() {
+		krefs := refs
+		starts := []int{0, 21}
+		if thorough {
+			starts = []int{0, 7, 14, 21, 28, 35, 42}
+		} else {
+			krefs = []string{refs[0], refs[2]}
+		}
+		for _, ref := range krefs {
+			for k := 2; k <= 31; k++ {
+				for _, st := range starts {
+					lens := map[int]bool{}
+					for _, ln := range []int{k, k + 1, k + 2, 2*k - 1, 2 * k, 2*k + 1, 3 * k, len(ref) - st} {
+						if ln >= k && st+ln <= len(ref) && ln <= 48+k {
+							lens[ln] = true
+						}
+					}
+					for ln := k; st+ln <= len(ref) && !expired(); ln++ {
+						if !lens[ln] {
+							continue
+						}
+						if !mine() {
+							continue
+						}
+						r.Count("graph_every_k_windows", 1)
+						w := ref[st : st+ln]
+						x.graphCheck(c19case{Kind: "graph", K: k, Seqs: []string{w}, Counts: []int{3}})
+						for _, v := range c19edits(w) {
+							for _, cc := range [][]int{{2, 1}, {1, 2}} {
+								x.graphCheck(c19case{Kind: "graph", K: k, Seqs: []string{w, v}, Counts: cc})
+							}
+						}
+					}
+				}
+			}
+		}
+	})
 	// ---- I. information only: key widths that cannot hold the masks of NewKmerMap (2k = width)
 	part("I", func() {
 		for _, wk := range [][2]int{{64, 32}, {128, 64}} {
